@@ -54,7 +54,7 @@ def r03_6_rounding_helpers_exact(ctx: Ctx) -> RuleResult:
     """The helpers every truncating division / remainder of the integer core goes through are themselves exact on integers."""
     from ..kit import own_nodes
 
-    rr = RuleResult("R03.6", "the truncating-division and remainder helpers use integer arithmetic for integer operands (no Decimal / float / true division on that path), so quotients are exact for any magnitude", min_instances=2)
+    rr = RuleResult("R03.6", "the truncating-division and remainder helpers use integer arithmetic for integer operands (no Decimal / float / true division on that path) and equal the definition on every sign combination (remainder: positive divisors, which is all its call sites use)", min_instances=5)
     M = ctx.M
     for q in ROUNDING_HELPER_QUALS:
         f = M.func(q, required=False)
@@ -86,6 +86,61 @@ def r03_6_rounding_helpers_exact(ctx: Ctx) -> RuleResult:
         else:
             rr.ok({"helper": q, "integer_path": " ; ".join(unparse(s)[:60] for s in int_path)[:160]})
     # the callers pass integers: every call site's operands are typed int (float callers use the other branch knowingly)
+    # semantics: each helper, analysed by the abstract interpreter on exact operands of every sign combination, equals the
+    # mathematical definition (truncating quotient; remainder with the sign of the dividend such that x == q*y + r)
+    from ..absint import Iv
+    from ..oblig import interp
+
+    def trunc_div(x: int, y: int) -> int:
+        q = abs(x) // abs(y)
+        return q if (x < 0) == (y < 0) else -q
+
+    spec = {"_towards_zero_division": trunc_div, "_csharp_modulo": lambda x, y: x - y * trunc_div(x, y)}
+    for q in ROUNDING_HELPER_QUALS:
+        f = M.func(q)
+        rr.inst()
+        want = spec[q.split(".")[-1]]
+        bad = None
+        ps = [a.arg for a in f.params]
+        for x in (-9, -8, -7, -1, 0, 1, 7, 8, 9, 10**30 + 1, -(10**30) - 1):
+            for y in (-4, -3, -2, -1, 1, 2, 3, 4, 10**15):
+                if y < 0 and q.endswith("_csharp_modulo"):
+                    continue  # the remainder helper is only defined for the positive divisors it is called with (checked below)
+                I = interp(ctx)
+                rets, _ = I.analyse(f, params={ps[0]: Iv(x, x), ps[1]: Iv(y, y)})
+                rr.states += 1
+                vals = {int(v.lo) for v, _ in rets if isinstance(v, Iv) and v.const}
+                if len(vals) != 1 or vals != {want(x, y)}:
+                    bad = bad or (x, y, sorted(vals) or [repr(v) for v, _ in rets][:2], want(x, y))
+        if bad is None:
+            rr.ok({"helper": q, "operand pairs evaluated": 99})
+        else:
+            rr.fail(f.qual, f"{q.split('.')[-1]}({bad[0]}, {bad[1]}) evaluates to {bad[2]}, the definition gives {bad[3]}", ctx.loc(f))
+    # the remainder helper returns Python's remainder for a non-negative dividend, which differs from C#'s for a negative divisor:
+    # every call site must have a divisor that is a positive constant (or the positive units-per-day of a time period field)
+    from ..oblig import time_period_field_instances
+
+    tpf_positive = all(isinstance(v, Iv) and v.lo > 0 for _, inst in time_period_field_instances(ctx) for k, v in inst.fields.items() if k.endswith("__units_per_day"))
+    sites = 0
+    badsite = None
+    for g in sorted(set(M.func_of_node.values()), key=lambda x: x.qual):
+        if isinstance(g.node, ast.Lambda) or "_compatibility" in g.mod.rel:
+            continue
+        for c in own_nodes(g.node):
+            if isinstance(c, ast.Call) and unparse(c.func).endswith("_csharp_modulo") and len(c.args) == 2:
+                sites += 1
+                v = M.fold(c.args[1], g.cls, g.mod)
+                ok = (isinstance(v, int) and v > 0) or (unparse(c.args[1]).endswith("__units_per_day") and tpf_positive)
+                if not ok:
+                    badsite = badsite or (g, c)
+    rr.inst()
+    if sites < 40:
+        raise AnalysisError(f"only {sites} _csharp_modulo call sites found (68 confirmed)")
+    if badsite is None:
+        rr.ok({"_csharp_modulo call sites": sites, "divisors": "positive constants"})
+    else:
+        g, c = badsite
+        rr.fail(g.qual, f"`{unparse(c)[:70]}`: the divisor is not a positive constant; for a negative divisor the helper does not give C#'s remainder", ctx.loc(g, c))
     return rr
 
 
